@@ -10,8 +10,9 @@ from core import VERIF
 
 MODEL = "queue"
 PROOF = {
-    "C20": {"module": "Thm_C20", "theorems": ["C20"],
+    "C20": {"module": "Thm_C20", "theorems": ["C20", "C20_join_eventually_returns"],
             "files": ["base/Base.v", "queue/QModel.v", "queue/Mon_C20.v", "queue/QProofs.v",
+                      "queue/QLive.v", "queue/QLiveMeasure.v", "queue/QLiveInv.v", "queue/QLiveThm.v",
                       "queue/Thm_C20.v"]},
 }
 SOURCES = ["src/asyncio_taskpool/queue_context.py"]
